@@ -109,7 +109,11 @@ class EqualConstant(Logic):
         if (w == 1):
             # very simple case
             if (v == 0):
-                Not(self, 'buf', a, r)
+                # invert into a 1-bit wire first: Not fills the upper bits
+                # of a wider output wire with ones
+                na = self.wire('na', 1)
+                Not(self, 'na', a, na)
+                Buf(self, 'buf', na, r)
             else:
                 Buf(self, 'not', a, r)
                 
